@@ -253,6 +253,7 @@ def run(ctx):
                    'the resolution table is written on the success path only', not in_handler, '')
 
     _stale_alias_and_undo(ctx, repo, tables)
+    dedup_exemption(ctx, 'C14.R9')
 
     # ---- R5 ----------------------------------------------------------------------
     pooled_typestate(ctx, 'C14.R5')
@@ -748,3 +749,62 @@ def pooled_typestate(ctx, rule):
                            f'{v} is not used after it was released', not used,
                            f'used at line {used[0].lineno} after release' if used else '')
     ctx.floor(rule, n, 6, 'pooled object acquisitions')
+
+
+def dedup_exemption(ctx, RULE):
+    """Which hints may be de-duplicated by their repr(): the tester, interpreted over abstract hints."""
+    from sa.fold import AObj, FuncVal, _Abort, _Raise, _call_function
+    from . import _gen
+    F = _gen.engines(ctx)[0].f
+    Q = 'beartype._util.hint.utilhinttest'
+    mm = ctx.repo.mod(Q)
+    fn = F.const(Q, 'is_hint_cacheworthy')
+    ctx.require(isinstance(fn, FuncVal), 'anchor vanished: is_hint_cacheworthy')
+    ctx.rule(RULE, 'hints that are replaced by an earlier hint with the same repr() (the coercion cache, known finding F3 for '
+             'same-named classes) never contain type variables — two TypeVars of one name with different bounds print '
+             'alike: is_hint_cacheworthy, interpreted over abstract hints whose __parameters__ is empty / holds a type '
+             'variable that is a direct argument / holds one that only occurs nested (list[T] | None, dict[str, list[T]]) × '
+             '{PEP 585 builtin, PEP 604 union, neither}, is false whenever __parameters__ is non-empty')
+
+    class _TV(AObj):
+        def __repr__(self):
+            return '~T'
+
+    class _H(AObj):
+        def __init__(self, params, args, kind):
+            self.__parameters__, self.__args__, self.kind = params, args, kind
+
+        def __repr__(self):
+            return f'<{self.kind} hint args={self.__args__} parameters={self.__parameters__}>'
+    saved, saved_b, saved_i = dict(F.stubs), F.builtin_hook, F.isinstance_hook
+    F.stubs['beartype._util.hint.pep.proposal.pep585.is_hint_pep585_builtin_subbed'] = lambda e, a, k: a[0].kind == 'pep585'
+    F.stubs['beartype._util.hint.pep.proposal.pep484.pep484604union.is_hint_pep604'] = lambda e, a, k: a[0].kind == 'pep604'
+    F.stubs['beartype._util.hint.pep.proposal.pep585.is_hint_pep585_generic'] = lambda e, a, k: False
+    F.stubs['beartype._util.hint.pep.utilpepget.get_hint_pep_args'] = lambda e, a, k: tuple(a[0].__args__)
+
+    def bh(name, args, kw):
+        if name == 'getattr' and args and isinstance(args[0], _H) and isinstance(args[1], str):
+            return getattr(args[0], args[1], *args[2:3])
+        return saved_b(name, args, kw) if saved_b else NotImplemented
+    F.builtin_hook = bh
+    F.isinstance_hook = lambda o, c: (('TypeVar' in repr(c)) if isinstance(o, _TV) else (False if isinstance(o, (_H, str)) and 'TypeVar' in repr(c)
+                                      else (saved_i(o, c) if saved_i else None)))
+    T = _TV()
+    inner = _H((T,), (T,), 'pep585')
+    try:
+        for kind in ('pep585', 'pep604', 'other'):
+            for pname, params, args in (('no type variables', (), ('int',)), ('a direct type-variable argument', (T,), (T,)),
+                                        ('a nested type variable', (T,), (inner, 'NoneType'))):
+                h = _H(params, args, kind)
+                try:
+                    out = _call_function(F, fn, [h], {}, 1)
+                except (_Abort, _Raise) as ex:
+                    ctx.require(False, f'cannot interpret is_hint_cacheworthy: {ex}')
+                want = (not params) and kind in ('pep585', 'pep604')
+                ctx.ob(RULE, f'repr-dedup:{kind}:{pname}', mm.where(fn.node),
+                       f'a {kind} hint with {pname} is ' + ('' if want else 'not ') + 'de-duplicated by repr()', bool(out) == want,
+                       f'is_hint_cacheworthy({h!r}) evaluates to {out!r}')
+    finally:
+        F.builtin_hook, F.isinstance_hook = saved_b, saved_i
+        F.stubs.clear()
+        F.stubs.update(saved)
